@@ -255,6 +255,47 @@ Theorem C17_segmentation_client : forall oreq oresp scheme_ok path hs w csA csB 
   seg_agree xA xB.
 Proof. exact client_segmentation. Qed.
 
+(* segmentation and WouldBlock together (the full quantifier of the property): two transports that,
+   once their WouldBlocks are deleted, differ only in how the peer's handshake bytes are cut into
+   reads (same write-acceptance sizes, same further behaviour) give the same result and put the
+   same bytes on the wire *)
+Theorem C17_segmentation_wouldblock : forall oreq oresp cb wA wB w0 csA csB t,
+  seq_scan oreq ->
+  nonempty_chunks csA -> nonempty_chunks csB -> concat csA = concat csB ->
+  (forall n x, oreq (concat csA) = OComplete n x -> n = blen (concat csA)) ->
+  strip_world wA = w_set_rds w0 (map RdData csA ++ t) ->
+  strip_world wB = w_set_rds w0 (map RdData csB ++ t) ->
+  let xA := server_handshake oreq oresp cb wA in
+  let xB := server_handshake oreq oresp cb wB in
+  hs_res xA <> HsFail HEAttack -> hs_res xB <> HsFail HEAttack ->
+  hs_res xA = hs_res xB /\ hs_wire (hs_log xA) = hs_wire (hs_log xB).
+Proof. exact server_segmentation_wb. Qed.
+
+Theorem C17_segmentation_wouldblock_client : forall oreq oresp scheme_ok path hs wA wB w0 csA csB t,
+  seq_scan oresp ->
+  nonempty_chunks csA -> nonempty_chunks csB -> concat csA = concat csB ->
+  (forall n x, oresp (concat csA) = OComplete n x -> n = blen (concat csA)) ->
+  strip_world wA = w_set_rds w0 (map RdData csA ++ t) ->
+  strip_world wB = w_set_rds w0 (map RdData csB ++ t) ->
+  let xA := client_handshake oreq oresp scheme_ok path hs wA in
+  let xB := client_handshake oreq oresp scheme_ok path hs wB in
+  hs_res xA <> HsFail HEAttack -> hs_res xB <> HsFail HEAttack ->
+  hs_res xA = hs_res xB /\ hs_wire (hs_log xA) = hs_wire (hs_log xB).
+Proof. exact client_segmentation_wb. Qed.
+
+(* non-vacuity of the two world premises: WouldBlocks before reads, writes and the flush, different
+   cuts of "G\n", both accepted *)
+Example C17_segmentation_wouldblock_nonvacuous :
+  let wA := mkWorld [RdErr WouldBlock; RdData [71]; RdErr WouldBlock; RdData [10]]
+                    [WrErr WouldBlock; WrAccept 3; WrAccept 1000] [FlErr WouldBlock; FlOk] [] [] in
+  let wB := mkWorld [RdData [71; 10]] [WrAccept 3; WrErr WouldBlock; WrAccept 1000] [FlOk] [] [] in
+  let w0 := mkWorld [] [WrAccept 3; WrAccept 1000] [FlOk] [] [] in
+  strip_world wA = w_set_rds w0 (map RdData [[71]; [10]] ++ []) /\
+  strip_world wB = w_set_rds w0 (map RdData [[71; 10]] ++ []) /\
+  hs_res (server_handshake HsWitness.toy_req HsWitness.no_resp CbNone wA) = HsDone Server [] /\
+  hs_res (server_handshake HsWitness.toy_req HsWitness.no_resp CbNone wB) = HsDone Server [].
+Proof. vm_compute. repeat split; reflexivity. Qed.
+
 (* REFUTED without "nothing behind the head": the statement "same hs_result for every two read
    oracles whose chunks concatenate to the same stream" is false for the model (= the code): a byte
    behind the request head is rejected as JunkAfterRequest only when it arrives in the same read *)
@@ -315,5 +356,7 @@ Print Assumptions C17_seq_scan_stable.
 Print Assumptions C17_segmentation_reading.
 Print Assumptions C17_segmentation.
 Print Assumptions C17_segmentation_client.
+Print Assumptions C17_segmentation_wouldblock.
+Print Assumptions C17_segmentation_wouldblock_client.
 Print Assumptions C17_segmentation_junk_refuted.
 Print Assumptions C17_segmentation_guard_needed.
